@@ -197,6 +197,9 @@ type PropSpec struct {
 	Known func(c *Case) string
 	// NeedWF: the predicate is only required on well-formed tables (the theorem's hypothesis).
 	NeedWF bool
+	// Classes: further Boolean lines of the driver's answer that are counted per stream when they
+	// are 1 (coverage classes of the property, printed in the evidence file).
+	Classes []string
 }
 
 // CheckStreams runs the streams, compares, shrinks and searches; results go into run.
@@ -214,6 +217,11 @@ func CheckStreams(run *report.Run, p PropSpec, streams []StreamSpec) error {
 			run.Count(st.Name + ":" + c.Tag)
 			if c.Spec["WF"] == "1" {
 				run.Count(st.Name + ":wf")
+			}
+			for _, k := range p.Classes {
+				if c.Spec[k] == "1" {
+					run.Count(st.Name + ":" + k)
+				}
 			}
 			if c.Tag != "404-nosvc" && c.Tag != "" {
 				run.Distinct[st.Name+"|"+c.CfgLine+"|"+c.ReqLine] = true
@@ -284,37 +292,50 @@ func reportDisagreement(run *report.Run, p PropSpec, st StreamSpec, c *Case) {
 		o, cfg, req = c, *c.Cfg, c.Req
 	}
 	// search the neighbourhood of the shrunk case for an input on which the property itself fails
-	if p.SpecKey != "" {
-		r := rng.New(run.Seed ^ 0xabcdef)
-		cont, err := Build(cfg)
-		if err == nil {
-			var lines []string
-			var cs []*Case
-			cfgLine := sx.K("cfg", sx.N(0), cfg.Sx()).String()
-			lines = append(lines, cfgLine)
-			for i := 0; i < 2000; i++ {
-				rq := GenReq(r, st.Opts, cfg)
-				if i%4 == 0 { // stay close to the disagreeing request
-					rq.Path, rq.Method = req.Path, req.Method
-				}
-				real := Dispatch(cont, rq)
-				cc := &Case{Cfg: &cfg, CfgLine: cfgLine, Req: rq, Real: real, RealS: real.Sx().String()}
-				cc.ReqLine = sx.K("route", sx.N(i), rq.Sx(), sx.K("real", real.Sx(), sx.H(real.SelPath), sx.N(real.Invocations))).String()
-				lines = append(lines, cc.ReqLine)
-				cs = append(cs, cc)
-			}
-			if ans, err := drv.Run(lines); err == nil {
-				for i, cc := range cs {
-					if fillAnswer(cc, ans[i+1]) == nil && (!p.NeedWF || cc.Spec["WF"] == "1") && cc.Spec[p.SpecKey] == "0" && knownOf(p, cc) == "" {
-						reportSpecFailure(run, p, cc)
-						return
-					}
-				}
-			}
-		}
+	if searchFalsifying(run, p, st.Opts, cfg, req) {
+		return
 	}
 	run.AddViolation(report.Violation{Kind: "correspondence", NoInput: true,
 		What:    fmt.Sprintf("model and implementation disagree on the %s projection of stream %s; no input falsifying the property was found near it", p.ID, st.Name),
 		Theorem: "correspondence stream " + st.Name + " (projection of " + p.ID + ")",
 		Case:    o.Lines(), Human: Human(&cfg, req), Model: o.ModelS, Real: o.RealS})
+}
+
+// searchFalsifying evaluates the property's predicate on 2,000 further requests to the table (every
+// fourth one keeps the path and method of req) and reports the first real outcome that falsifies it.
+func searchFalsifying(run *report.Run, p PropSpec, opts Opts, cfg Config, req Req) bool {
+	if p.SpecKey == "" {
+		return false
+	}
+	r := rng.New(run.Seed ^ 0xabcdef)
+	cont, err := Build(cfg)
+	if err != nil {
+		return false
+	}
+	var lines []string
+	var cs []*Case
+	cfgLine := sx.K("cfg", sx.N(0), cfg.Sx()).String()
+	lines = append(lines, cfgLine)
+	for i := 0; i < 2000; i++ {
+		rq := GenReq(r, opts, cfg)
+		if i%4 == 0 { // stay close to the disagreeing request
+			rq.Path, rq.Method = req.Path, req.Method
+		}
+		real := Dispatch(cont, rq)
+		cc := &Case{Cfg: &cfg, CfgLine: cfgLine, Req: rq, Real: real, RealS: real.Sx().String()}
+		cc.ReqLine = sx.K("route", sx.N(i), rq.Sx(), sx.K("real", real.Sx(), sx.H(real.SelPath), sx.N(real.Invocations))).String()
+		lines = append(lines, cc.ReqLine)
+		cs = append(cs, cc)
+	}
+	ans, err := drv.Run(lines)
+	if err != nil {
+		return false
+	}
+	for i, cc := range cs {
+		if fillAnswer(cc, ans[i+1]) == nil && (!p.NeedWF || cc.Spec["WF"] == "1") && cc.Spec[p.SpecKey] == "0" && knownOf(p, cc) == "" {
+			reportSpecFailure(run, p, cc)
+			return true
+		}
+	}
+	return false
 }
